@@ -215,7 +215,14 @@ func runC01(c *sim.Ctx) {
 	s := c.Src
 	prof := world.Profile{PageSizes: world.AllPageSizes, MaxTables: 3, RowsLo: 0, RowsHi: 250, Fancy: 4, DDL: true, Vacuum: true,
 		Boundary: true, LongKeys: 2, WithoutRow: 3, IndexesHi: 2, Exprs: true, DbStat: true}
-	switch s.Weighted([]int{6, 3, 1}, "profile") {
+	switch s.Weighted([]int{6, 3, 1, 1}, "profile") {
+	case 3: // many small tables: sqlite_master itself becomes a multi-level tree
+		prof.MaxTables = 40
+		prof.RowsHi = 4
+		prof.IndexesHi = 1
+		prof.Boundary = false
+		prof.PageSizes = []int{512, 1024, 4096}
+		c.Probe("many-tables-profile")
 	case 1: // small pages, more rows: deeper trees
 		prof.PageSizes = []int{512, 1024}
 		prof.RowsHi = 1500
